@@ -25,7 +25,7 @@ REQUIRED_MONITORS = ["equals_channel_sum", "zero_magnetisation_is_nonmagnetic"]
 REQUIRED_BUCKETS = {"quick": ["up_frac:0", "up_frac:0.5", "up_frac:1", "up_frac:outside", "up_frac:random", "axis:up_theta90",
                               "axis:tilted", "magnetic_slds:1", "magnetic_slds:all", "vector_sld", "dispersity", "oriented",
                               "lane:asan", "nonmagnetic_sld_with_nonzero_angles", "mesh>100",
-                              "angles:outside-nominal-range", "entry:call_Fq"]}
+                              "angles:outside-nominal-range", "entry:call_Fq", "entry:sasview", "cutoff>0:small-channel-weight"]}
 REQUIRED_BUCKETS["thorough"] = REQUIRED_BUCKETS["quick"]
 
 
@@ -134,13 +134,20 @@ def run_case(case, rec):
     else:
         ut, up = float(rng.uniform(5, 175)), float(rng.uniform(5, 175))
         rec.bucket("axis:tilted")
+    cutoff = 0.0
+    if k % 4 == 1 and any(kk.endswith("_pd_n") for kk in pars):
+        # a weight cutoff above zero together with a small but non-zero weight of some spin channels: the cutoff acts
+        # on the mesh weights alone, every retained mesh point contributes all four channels
+        cutoff = float(10**rng.uniform(-4, -2))
+        ui, uf = float(rng.uniform(0.01, 0.05)), float(rng.uniform(0.94, 0.99))
+        rec.bucket("cutoff>0:small-channel-weight")
     mpars = dict(pars, up_frac_i=ui, up_frac_f=uf, up_theta=ut, up_phi=up)
     for s, (m0, mt, mp) in M.items():
         mpars[s + "_M0"], mpars[s + "_mtheta"], mpars[s + "_mphi"] = m0, mt, mp
     qx, qy = sas.q_points_2d(i, pars, 5, rng)
     model = sas.build(name)
     kernel = model.make_kernel([qx, qy])
-    I = np.asarray(direct_model.call_kernel(kernel, dict(mpars)), float)
+    I = np.asarray(direct_model.call_kernel(kernel, dict(mpars), cutoff=cutoff), float)
     if not np.any(np.isfinite(np.asarray(direct_model.call_kernel(kernel, dict(pars)), float))):
         rec.skip("the non-magnetic model is undefined (NaN) at this parameter set")
         rec.set_shape((name, "undefined"), False)
@@ -168,7 +175,7 @@ def run_case(case, rec):
             for s in slds:
                 Mp = Mvec[s] - qhat*float(np.dot(qhat, Mvec[s]))
                 p[s] = fn(pars[s], Mp)
-            return float(direct_model.call_kernel(k1, p)[0])
+            return float(direct_model.call_kernel(k1, p, cutoff=cutoff)[0])
         Idd = call(lambda rho, Mp: rho - float(np.dot(P, Mp)))
         Iuu = call(lambda rho, Mp: rho + float(np.dot(P, Mp)))
         Ie1 = call(lambda rho, Mp: float(np.dot(e1, Mp)))
@@ -186,8 +193,21 @@ def run_case(case, rec):
     rec.check("no_stale_result", not sas.has_poison(I), ctx)
     # the amplitude entry point on the same request: <F^2> and the shell volume it returns reproduce the intensity,
     # i.e. it evaluates the same four-channel sum
+    if k % 3 == 0 and not any(kk.endswith("_pd_n") for kk in pars):
+        # the SasView-style model object on the same 2-D request
+        from sasmodels import sasview_model
+        m_ = sasview_model._make_standard_model(name)()
+        for kk, vv in mpars.items():
+            m_.setParam(kk, vv)
+        m_.cutoff = cutoff
+        Isv = np.asarray(m_.evalDistribution([qx.copy(), qy.copy()]), float)
+        oksv = bool(np.all(np.abs(Isv - exp) <= 1e-9*np.abs(exp) + scale*slack + 1e-300))
+        rec.check("equals_channel_sum", oksv,
+                  None if oksv else dict(ctx, entry="SasviewModel.evalDistribution([qx, qy])", observed=Isv, expected=exp,
+                                         from_call_kernel=I, max_rel_err=core.maxrel(Isv, exp)))
+        rec.bucket("entry:sasview")
     if k % 2 == 0:
-        _F1, F2, _R, Vs, _ratio = direct_model.call_Fq(kernel, dict(mpars))
+        _F1, F2, _R, Vs, _ratio = direct_model.call_Fq(kernel, dict(mpars), cutoff=cutoff)
         Ifq = scale*np.asarray(F2, float)/float(Vs) + bg
         okf = bool(np.all(np.abs(Ifq - exp) <= 1e-9*np.abs(exp) + scale*slack + 1e-300))
         rec.check("equals_channel_sum", okf,
@@ -198,8 +218,8 @@ def run_case(case, rec):
     zpars = dict(mpars)
     for s in slds:
         zpars[s + "_M0"] = 0.0
-    Iz = np.asarray(direct_model.call_kernel(kernel, zpars), float)
-    In = np.asarray(direct_model.call_kernel(kernel, dict(pars)), float)
+    Iz = np.asarray(direct_model.call_kernel(kernel, zpars, cutoff=cutoff), float)
+    In = np.asarray(direct_model.call_kernel(kernel, dict(pars), cutoff=cutoff), float)
     rec.check("zero_magnetisation_is_nonmagnetic", bool(np.array_equal(Iz, In, equal_nan=True)),
               dict(ctx, zero_M0=Iz, nonmagnetic=In))
     rec.bucket("lane:" + case.get("lane", "plain"))
